@@ -61,8 +61,32 @@ BY_VALUE = {
 }
 
 
+def _is_private_fn(q):
+    last = q.rsplit(".", 1)[-1]
+    return last.startswith("_") and not (last.startswith("__")
+                                         and last.endswith("__"))
+
+
 def r1_no_mutation(ctx):
+    """Public functions (and methods) never edit a by-value argument in
+    place - directly or by handing it to a private helper that does.  What
+    a private helper may do with its parameters is decided by what its
+    callers pass: a helper that edits a fresh local array of its caller is
+    fine."""
     n_fun = n_par = 0
+    # which parameters does each private helper edit in place?
+    helper_muts = {}
+    for m, q, f in ctx.repo.all_funcs():
+        if not _is_private_fn(q) or (m.name == "fit" and q.startswith(
+                "FitProperties.")):
+            continue
+        ps = func_params(f)
+        if not ps:
+            continue
+        al = effects.alias_map(f, {p: f"param:{p}" for p in ps})
+        mut = {root for _n, root, _h in effects.mutations(f, al)}
+        if mut:
+            helper_muts[(m.name, q.rsplit(".", 1)[-1])] = (ps, mut)
     for m, q, f in ctx.repo.all_funcs():
         ps = [p for p in func_params(f) if p in BY_VALUE]
         if not ps:
@@ -72,7 +96,10 @@ def r1_no_mutation(ctx):
         ctx.analysed(f)
         roots = {p: f"param:{p}" for p in ps}
         al = effects.alias_map(f, roots)
-        muts = effects.mutations(f, al)
+        if not _is_private_fn(q) or (m.name == "fit"):
+            muts = effects.mutations(f, al)
+        else:
+            muts = []
         for node, root, how in muts:
             if m.name == "fit" and q == "FitProperties.__setitem__" and \
                     root == "value":
@@ -80,7 +107,31 @@ def r1_no_mutation(ctx):
             ctx.fail(node, how,
                      f"{m.name}.{q} modifies its argument `{root}` in place "
                      f"({how}); the caller's object changes behind its back")
-        if not muts:
+        # by-value arguments handed to a helper that edits that parameter
+        handed = 0
+        for c in calls_in(f):
+            cn = (call_name(c) or "").split(".")[-1]
+            hm = helper_muts.get((m.name, cn))
+            if not hm:
+                continue
+            hps, hmut = hm
+            offset = 1 if hps and hps[0] in ("self", "cls") and isinstance(
+                c.func, ast.Attribute) else 0
+            bound = dict(zip(hps[offset:], c.args))
+            bound.update({k.arg: k.value for k in c.keywords if k.arg})
+            for hp, arg in bound.items():
+                b = effects.base_name(arg)
+                if hp in hmut and b in al and not al[b].startswith(
+                        ("fresh", "deep")) and isinstance(
+                        arg, (ast.Name, ast.Attribute, ast.Subscript)):
+                    handed += 1
+                    ctx.fail(c, f"{cn}({norm(arg)[:30]}) edits its "
+                             f"parameter `{hp}`",
+                             f"{m.name}.{q} hands its argument "
+                             f"`{al[b].split(':')[-1]}` to `{cn}`, which "
+                             f"modifies that parameter in place; the "
+                             "caller's object changes behind its back")
+        if not muts and not handed:
             ctx.ok(f, f"{m.name}.{q}({', '.join(ps)}) mutates no argument")
     ctx.floor("functions with by-value parameters", n_fun, 40)
 
